@@ -536,6 +536,25 @@ func catalogue() []*deviant {
 	add(&deviant{name: "err-isdir-as-invalid", mapErr: swap(hackpadfs.ErrIsDir, hackpadfs.ErrInvalid)})
 	add(&deviant{name: "err-notdir-as-notexist", mapErr: swap(hackpadfs.ErrNotDir, hackpadfs.ErrNotExist)})
 	add(&deviant{name: "err-invalid-as-notexist", mapErr: swap(hackpadfs.ErrInvalid, hackpadfs.ErrNotExist)})
+	// every other pair of sentinels the scenarios expect (except Exist reported as ENOTEMPTY, which errors.Is accepts:
+	// syscall.ENOTEMPTY matches fs.ErrExist by Errno.Is)
+	{
+		type sn struct {
+			n string
+			e error
+		}
+		sents := []sn{{"notexist", hackpadfs.ErrNotExist}, {"exist", hackpadfs.ErrExist}, {"notempty", hackpadfs.ErrNotEmpty},
+			{"isdir", hackpadfs.ErrIsDir}, {"notdir", hackpadfs.ErrNotDir}, {"invalid", hackpadfs.ErrInvalid}}
+		have := map[string]bool{"notexist-exist": true, "exist-notexist": true, "isdir-invalid": true, "notdir-notexist": true, "invalid-notexist": true, "exist-notempty": true}
+		for _, from := range sents {
+			for _, to := range sents {
+				if from.n == to.n || have[from.n+"-"+to.n] {
+					continue
+				}
+				add(&deviant{name: "err-" + from.n + "-as-" + to.n + "-m", mapErr: swap(from.e, to.e)})
+			}
+		}
+	}
 	add(&deviant{name: "err-path-prefixed", mapErr: func(op string, err error) error {
 		switch e := err.(type) {
 		case *hackpadfs.PathError:
